@@ -64,3 +64,10 @@ L('n_star_zero', {'u': 'str', 'lo': 'int', 'hi': 'int'},
 
 # the running maximum (started at -1) never drops below -1; instances are added wherever a MaxR term is unfolded
 L('rmax_lower', {'a': 'list[real]', 'lo': 'int', 'hi': 'int'}, 'rmax(lambda j: a[j], lo, hi) >= -1', ind='hi', base='lo')
+
+# a non-frozen position i < n has fewer non-frozen positions before it than there are below n
+L('nmov_strict', {'frozen': 'set[int]', 'n': 'int'},
+  'forall(lambda i: implies(Not(isin(i, frozen)), nmov(frozen, i) < nmov(frozen, n)), 0, n)', ind='n', base='0')
+L('nmov_nonneg', {'frozen': 'set[int]', 'n': 'int'}, 'nmov(frozen, n) >= 0', ind='n', base='0')
+L('nmov_mono', {'frozen': 'set[int]', 'i': 'int', 'n': 'int'}, 'nmov(frozen, i) <= nmov(frozen, n)', ind='n', base='i', requires=['i <= n'])
+L('nmov_nonneg_all', {'frozen': 'set[int]', 'n': 'int'}, 'forall(lambda i: nmov(frozen, i) >= 0, 0, n + 1)', ind='n', base='0')
